@@ -448,7 +448,7 @@ func siteChain(p *Prog, s writeSite) string {
 func AsmMayWrite(u *AsmUnit, p *Prog) (map[string]map[int]bool, []string) {
 	out := map[string]map[int]bool{}
 	var problems []string
-	pk := p.Pkgs["sm4"]
+	pk := p.Pkgs[u.PkgRel()]
 	for _, rt := range u.Routines {
 		if !rt.HasDecl {
 			continue
